@@ -43,6 +43,16 @@ SCENARIOS = ["start", "reset_all", "reset_subset", "set", "merge",
 # (dir, V, S): homes as evo leaves them (Consistent in the model) ...
 INITS = [("0", "absent", "absent"), ("1", "absent", "absent"), ("1", "current", "absent"),
          ("1", "current", "wf"), ("1", "old", "wf"), ("1", "old", "lacking"), ("1", "empty", "lacking")]
+# stored version strings: `update_if_outdated` must treat every string other than __version__ as outdated
+# (lexicographically larger-but-older stamps, trailing white space, a longer patch number, garbage)
+VERSION_STRINGS = ["v1.9.0", "v1.5.0", "v1.4.2", "v9", "z", "v1.31.10", "v1.31.1 ", "v1.31.1\n", "v1.31.0", "v1.10.0", "v0", "V1.31.1",
+                   "v1.31", "1.31.1", "v2.0.0", "{}"]
+
+
+def ver_init(v, s="lacking"):
+    return ("1", "ver:" + v.encode().hex(), s)
+
+
 # ... and damaged homes (pre-fix leftovers): the model must predict the failure as well
 BAD_INITS = [("1", "current", "empty"), ("1", "current", "torn"), ("1", "absent", "empty")]
 
@@ -78,7 +88,9 @@ def make_home(init, defaults, version):
     evo = Path(home) / ".evo"
     if d == "1":
         evo.mkdir()
-        if v != "absent":
+        if v.startswith("ver:"):
+            (evo / "assets_version").write_bytes(bytes.fromhex(v[4:]))
+        elif v != "absent":
             (evo / "assets_version").write_text({"current": version, "old": "v0.0.1", "empty": "", "torn": version[:2]}[v])
         if s != "absent":
             full = json.dumps(defaults, indent=4, sort_keys=True)
@@ -112,9 +124,9 @@ def classify(home, defaults, version):
     if not vp.exists():
         out["V"] = "absent"
     else:
-        raw = vp.read_text()
+        raw = vp.read_bytes().decode("utf-8", "replace")
         out["V"] = "empty" if raw == "" else "ver-current" if raw == version else \
-            "bad" if version.startswith(raw) else "ver-old"
+            "bad" if (version.startswith(raw) and len(raw) <= 2) else "ver-old"
     out["tmp"] = sorted(p.name for p in evo.glob("*.tmp")) if evo.is_dir() else []
     return out
 
@@ -388,9 +400,17 @@ def gen_cases(ctx):
             yield {"kind": "trace", "scenario": sc, "init": list(init)}
     for init in BAD_INITS:
         yield {"kind": "trace", "scenario": "start", "init": list(init)}
+    _, cur = default_text_and_version()
+    for v in VERSION_STRINGS + [cur]:
+        for s_ in ("lacking", "wf"):
+            if v == cur and s_ == "lacking":
+                continue        # not a home evo leaves behind (outside `Consistent`)
+            yield {"kind": "trace", "scenario": r.choice(["start", "start", "cli_set", "reset_subset"]), "init": list(ver_init(v, s_))}
     # crash points: (scenario, init) pairs; k ranges over the steps of the trace (filled in by evaluate)
     pairs = [(sc, init) for sc in SCENARIOS for init in INITS]
-    must = [("start", INITS[0]), ("start", INITS[5]), ("cli_set_merge", INITS[3]), ("reset_subset", INITS[4])]
+    vs = r.sample(VERSION_STRINGS, 2 if not ctx.thorough else len(VERSION_STRINGS))
+    must = [("start", INITS[0]), ("start", INITS[5]), ("cli_set_merge", INITS[3]), ("reset_subset", INITS[4]),
+            ("start", ver_init("v1.9.0"))] + [("start", ver_init(v)) for v in vs]
     chosen = must + (pairs if ctx.thorough else r.sample(pairs, 6))
     seen = set()
     for sc, init in chosen:
@@ -402,7 +422,7 @@ def gen_cases(ctx):
     for _ in range(n_il):
         n = r.choice([2, 2, 2, 3])
         scs = [r.choice(["start", "start", "start", "cli_set", "reset_all", "merge", "reset_subset"]) for _ in range(n)]
-        init = r.choice([INITS[0], INITS[0], INITS[0], INITS[1], INITS[2], INITS[5], INITS[4]])
+        init = r.choice([INITS[0], INITS[0], INITS[0], INITS[1], INITS[2], INITS[5], INITS[4], ver_init(r.choice(VERSION_STRINGS))])
         style = r.choice(["uniform", "bursty", "lockstep"])
         sched = []
         if style == "lockstep":
@@ -534,6 +554,8 @@ def judge(ctx, case, defaults, version, homes):
                                         "first-init" if "write tmpS defaults" in m["labels"] and case["init"][2] == "absent"
                                         else "failed" if m["status"] == "failed" else "plain"))
         ctx.count("dist", "trace:" + case["scenario"])
+        if case["init"][1].startswith("ver:"):
+            ctx.count("dist", "stored-version:" + repr(bytes.fromhex(case["init"][1][4:]).decode()))
         ctx.record(case, any(l.startswith("write") for l in m["labels"]))
         return
     if kind == "crash-all":
